@@ -451,6 +451,25 @@ class Oracle:
                     filled = b0.rem_base - (n.rem_base if n is not None else 0)
                     if at.get("size") != str(filled) or at.get("ask_id") != ai[0] or at.get("bid_id") != bi[0]:
                         out.append(("C17", None, "match size/id attributes differ from what was executed"))
+                    # reported fees against what the fee accounts actually received
+                    try:
+                        rep = {"ask": int(at.get("ask_fee", "0")), "bid": int(at.get("bid_fee", "0"))}
+                        accts = {"ask": self.cfg.ask_fee[0] if self.cfg.ask_fee else None,
+                                 "bid": self.cfg.bid_fee[0] if self.cfg.bid_fee else None}
+                        parties = {a0.owner, b0.owner} | ({a0.cls[1]} if a0.cls[0] == "ready" else set())
+                        q = b0.quote_denom
+                        for side in ("ask", "bid"):
+                            if rep[side] and accts[side] is None:
+                                out.append(("C17", None, "%s_fee %d reported but no %s-fee account is configured" % (side, rep[side], side)))
+                        if accts["ask"] == accts["bid"]:
+                            want = {accts["ask"]: rep["ask"] + rep["bid"]} if accts["ask"] else {}
+                        else:
+                            want = dict((accts[s_], rep[s_]) for s_ in ("ask", "bid") if accts[s_])
+                        for acct, amt in want.items():
+                            if acct not in parties and fl.get((acct, q), 0) != amt:
+                                out.append(("C17", None, "fee attributes report %d for %s, it received %d" % (amt, acct, fl.get((acct, q), 0))))
+                    except Exception:
+                        pass
         # ---- C09 fee exactness (rates judged exactly; pro-rata to the nearest unit, lower unit only on a tie)
         if k == "EXEC" and self.cfg is not None and clean:
             if ev.sub == "create_bid" and b.ok:
